@@ -26,6 +26,11 @@ NCHUNK = 16
 
 
 def shape_text(default, kw, cls, pos, kind, num):
+    if pos.endswith('+cf'):
+        # the sibling component is written as a fixed-type class field: the linker rebuilds the enclosing types while it resolves the
+        # field (resolve_class_reference) - the tags written next to it must survive
+        t = shape_text(default, kw, cls, pos[:-3], kind, num)
+        return t.replace('f BOOLEAN', 'f CLS.&flag').replace(' BEGIN ', ' BEGIN CLS ::= CLASS { &flag BOOLEAN, &Type } ', 1)
     tag = f"[{cls + ' ' if cls else ''}{num}]" + (' ' + kw if kw else '')
     ty = f"{tag} {KIND_TEXT[kind]}"
     if pos == 'assign':
@@ -65,6 +70,8 @@ def all_shapes(tier):
         if tier == 'quick' and pos in ('seqof-nested-comp', 'setof-nested-comp', 'comp-setof-nested-comp') and (cls in ('PRIVATE', 'UNIVERSAL') or kind not in ('prim', 'ref-seq')):
             continue
         out.append((d, kw, cls, pos, kind))
+        if pos in ('seq-comp', 'set-comp', 'choice-alt', 'nested2-comp') and cls in ('', 'APPLICATION') and kind in ('prim', 'ref-choice') and not (tier == 'quick' and pos == 'nested2-comp' and cls):
+            out.append((d, kw, cls, pos + '+cf', kind))
     return out
 
 
@@ -265,6 +272,7 @@ def has_item(item, name):
 def judge(shape, items, numsym, chk=None, pc=None):
     """returns list of (oracle, message) failures; when chk is given the number equality is a solver obligation"""
     d, kw, cls, pos, kind = shape
+    pos = pos[:-3] if pos.endswith('+cf') else pos
     fails = []
     ritems, container = find_tag_items(items, pos, kind)
     if ritems is None:
